@@ -89,6 +89,9 @@ def run(prop, tier, replay=None):
     print("trace validation: %d states, %.1fs, %d rejected line(s)" % (r["distinct"], r["wall_s"], len(rejs)))
 
     byn = {(ln["t"], ln["n"]): i for i, ln in enumerate(lines)}
+    first = {}
+    for i, ln in enumerate(lines):
+        first.setdefault(ln["t"], i)
     verdict = vlib.Verdict(prop)
     timeouts = []
     for rj in rejs:
@@ -107,7 +110,7 @@ def run(prop, tier, replay=None):
         sc = scenarios[rj["t"] - 1] if 0 < rj["t"] <= len(scenarios) else None
         for sg in (sig if isinstance(sig, list) else [sig]):
           verdict.add(sg, {"line": ln, "why": rj.get("why"), "spec_state": rj.get("spec"), "tlc": rj.get("tlc"),
-                           "trace": [x for x in lines if x["t"] == rj["t"] and x["n"] <= rj["n"]][-25:], "scenario": sc})
+                           "trace": lines[max(first.get(rj["t"], 0), (i or 0) - 24):(i or 0) + 1], "scenario": sc})
     if not verdict.items and len(timeouts) > max(2, ran // 50):
         raise vlib.Broken("the harness could not drive the watcher in %d scenarios, e.g. %s" % (len(timeouts), timeouts[:3]))
     rc = verdict.finish()
